@@ -106,8 +106,11 @@ func genC18Aging(seed uint64, run int) *Plan {
 }
 
 func genC18(seed uint64, run int, tier string) *Plan {
-	if newRNG(seed, 0x181).IntN(100) < 10 {
+	switch k := newRNG(seed, 0x181).IntN(100); {
+	case k < 10:
 		return genC18Aging(seed, run)
+	case k < 18:
+		return genC18Shared(seed, run)
 	}
 	r := newRNG(seed, 18)
 	p := &Plan{Prop: "C18", Seed: seed, Run: run}
@@ -1056,6 +1059,9 @@ func sortedKeys(ms ...map[string]string) []string {
 }
 
 func execC18(t *testing.T, plan *Plan) *Outcome {
+	if plan.Cfg.Variant == "sharedstream" {
+		return execC18Shared(t, plan)
+	}
 	return runPlan(t, plan, func(e *Env) {
 		sim := e.sim
 		g := &gfsRun{e: e, buckets: map[string]*lungo.Bucket{}, aging: plan.Cfg.Variant == "aging"}
